@@ -22,7 +22,7 @@ def rows():
     out.append("|----------|--------|--------|------|")
     for line in open(V + "/known_findings.jsonl"):
         line = line.strip()
-        if not line:
+        if not line or line.startswith("#"):
             continue
         k = json.loads(line)
         what = k.get("what", "").replace("|", "\\|")
